@@ -161,6 +161,35 @@ def check(tier: str) -> Result:
             else:
                 res.add("C10.R2", f"{m.relpath}:{node.lineno}", short(m.name), f"multi-sample draw `{tgt}` is without replacement", ok,
                         "replace=False" if ok else f"jax.random.choice(..., shape={ast.unparse(shape)}) samples with replacement: two entities can receive the same cell")
+    # several independent multi-sample draws over the same population inside one function can collide with each other
+    for m in tree.modules.values():
+        if not m.name.startswith("jumanji.environments."):
+            continue
+        for fnode in ast.walk(m.tree):
+            if not isinstance(fnode, ast.FunctionDef):
+                continue
+            local = {}
+            for st in ast.walk(fnode):
+                if isinstance(st, ast.Assign) and len(st.targets) == 1 and isinstance(st.targets[0], ast.Name):
+                    local[st.targets[0].id] = ast.unparse(st.value)
+            groups = {}
+            for node in ast.walk(fnode):
+                if isinstance(node, ast.Call) and tree.resolve_expr(m, node.func) == "jax.random.choice":
+                    kw = {k.arg: k.value for k in node.keywords}
+                    shape = kw.get("shape", node.args[2] if len(node.args) > 2 else None)
+                    pop = kw.get("a", node.args[1] if len(node.args) > 1 else None)
+                    if shape is None or pop is None or "p" in kw or (isinstance(shape, ast.Tuple) and len(shape.elts) == 0):
+                        continue
+                    if isinstance(shape, (ast.List, ast.Tuple)) and len(shape.elts) == 1 and isinstance(shape.elts[0], ast.Constant) and shape.elts[0].value == 1:
+                        continue
+                    key_ = ast.unparse(pop)
+                    key_ = local.get(key_, key_)
+                    groups.setdefault(key_, []).append(node)
+            for pop_src, nodes in groups.items():
+                if len(nodes) >= 2:
+                    res.add("C10.R2", f"{m.relpath}:{nodes[1].lineno}", short(m.name) + "." + fnode.name,
+                            f"positions over {pop_src[:50]} are drawn in one without-replacement draw", False,
+                            f"{len(nodes)} independent multi-sample draws over the same population: entities of different draws can receive the same cell")
     if n_choice < 8:
         raise AnalysisError(f"only {n_choice} multi-sample jax.random.choice sites found (hand-confirmed minimum 8)")
     # ------------------------------------------------------------------ R3 (= C01.R6)
